@@ -10,8 +10,8 @@ D# = -7
 L& = 2147483647
 I% = -32768
 Q! = 2.5
-PRINT USING "##x"; 5; -5;
-LPRINT USING "#x"; 5
+PRINT USING "#x"; 5;
+PRINT #1, USING "#x"; 5
 PRINT , "|"
 LPRINT , "|"
 PRINT #1, , "|"
